@@ -5,7 +5,7 @@
    named atoms non-empty, no empty set / vector compound (the image counts its placeholder), negation
    and differences have their arity by construction of the value type.
    The folding half (values produced by folding lexical values) is in Props/C03.v / C05F.v. *)
-From Nv Require Import Model.EnumOk Proofs.EnumParseP.
+From Nv Require Import Model.EnumOk Model.EqHash Proofs.EnumParseP.
 
 (* table obligation: set_atom_name really stores the name for the five named atom kinds *)
 Theorem C12_setname_table : setname_table_ok = true.
@@ -31,12 +31,23 @@ Theorem C12_budget_door_wf :
 Proof. exact door_budget_ok. Qed.
 Print Assumptions C12_budget_door_wf.
 
+(* every parsed term satisfies the representation invariant of set payloads (duplicate-free up to ==, at every
+   level): the hypothesis set_ok of the C06 / C07 theorems holds of everything the parser returns *)
+Theorem C12_parse_output_set_ok :
+  forall (F : Type) (fread : str -> option F) (fzero : F) (in01 : F -> bool) (is_alnum : N -> bool) (E : efmt)
+         (input : str) (v : narsese F) (st : pstate F),
+    parse_narsese F fread fzero in01 is_alnum E input = POk v st ->
+    set_ok (match v with NTerm t => t | NSentence s => s_term s | NTask k => s_term (fst k) end) = true.
+Proof. exact parse_output_set_ok. Qed.
+Print Assumptions C12_parse_output_set_ok.
+
 (* what narsese_ok means, spelled out on terms (so that the definition cannot be quietly weakened) *)
 Theorem C12_term_ok_meaning : forall t : term,
   term_ok t = true ->
   match t with
   | TName _ n => n <> []
-  | TSet _ l | TVec _ l => l <> [] /\ forallb term_ok l = true
+  | TSet _ l => l <> [] /\ forallb term_ok l = true /\ nodup_eqb l = true
+  | TVec _ l => l <> [] /\ forallb term_ok l = true
   | TImg _ i l => (i <= nlen l)%N /\ forallb term_ok l = true
   | TBox1 _ a => term_ok a = true
   | TBox2 _ a b => term_ok a = true /\ term_ok b = true
@@ -45,6 +56,6 @@ Theorem C12_term_ok_meaning : forall t : term,
 Proof. exact term_ok_meaning. Qed.
 Print Assumptions C12_term_ok_meaning.
 
-Example ex_C12_rejects : term_ok (TImg ImageExtension 2 [TName Word [97]%N]) = false /\ term_ok (TSet SetExtension []) = false /\
+Example ex_C12_rejects : term_ok (TImg ImageExtension 2 [TName Word [97]%N]) = false /\ term_ok (TSet SetExtension []) = false /\ term_ok (TSet SetExtension [TName Word [97]%N; TName Word [97]%N]) = false /\
                          term_ok (TName Word []) = false /\ term_ok (TImg ImageExtension 1 [TName Word [97]%N]) = true.
 Proof. vm_compute. repeat split. Qed.
